@@ -1511,11 +1511,8 @@ class Bits:
 
     def tobitarray(self) -> bitarray.bitarray:
         """Convert the bitstring to a bitarray object."""
-        if self._bitstore.modified_length is not None:
-            # Removes the offset and truncates to length
-            return self._bitstore.getslice(0, len(self))._bitarray
-        else:
-            return self._bitstore._bitarray
+        # Always return a copy (of just the bits in use) so that changing it can't affect this or any other bitstring.
+        return self._bitstore._copy()._bitarray
 
     def tofile(self, f: BinaryIO) -> None:
         """Write the bitstring to a file object, padding with zero bits if needed.
